@@ -383,11 +383,11 @@ func writeEvidence(p *Property, opts *Options, specs []*HarnessSpec, results []*
 		"exhaustive":                    len(problems) == 0,
 		"explanation": "states = symbolic paths completed (each covers every input satisfying its path condition); transitions = fork decisions taken; " +
 			"each assertion on each path is one SMT query pc ∧ ¬assertion that must be unsat",
-		"harnesses":             harn,
-		"functions_encoded":     funcs,
-		"stubs_used":            stubs,
-		"bounds":                p.Bounds,
-		"assertion_queries_unsat": assertsTotal,
+		"harnesses":                harn,
+		"functions_encoded":        funcs,
+		"stubs_used":               stubs,
+		"bounds":                   p.Bounds,
+		"assertion_queries_unsat":  assertsTotal,
 		"assertions_constant_true": trivial,
 		"queries": map[string]int64{"feasibility": gStats.Feasibility, "assertion": gStats.Assertion, "sat": gStats.Sat, "unsat": gStats.Unsat,
 			"unknown": gStats.Unknown, "solver_errors": gStats.Errors, "cross_checks": gStats.CrossChecks},
